@@ -318,27 +318,27 @@ func (l *Ledger) Finish(o FinishOpts) int {
 	}
 	sort.Strings(fns)
 	cov := map[string]any{
-		"explanation":        o.Explanation,
-		"rule":               "one obligation per (rule, function, construct); a rule instance is non-trivial when it names a concrete SSA construct of the current tree",
-		"evaluations":        total,
+		"explanation":         o.Explanation,
+		"rule":                "one obligation per (rule, function, construct); a rule instance is non-trivial when it names a concrete SSA construct of the current tree",
+		"evaluations":         total,
 		"distinct_nontrivial": total,
-		"obligations":        total,
-		"discharged":         discharged,
-		"audited":            counts[Audited],
-		"known_findings":     counts[Known],
-		"undecided":          counts[Undecided],
-		"violated":           counts[Violated],
-		"checker_cmd":        o.Cmd,
-		"trusted_base":       l.Trusted,
-		"rule_instances":     l.RuleCounts(),
-		"rule_floors":        l.Floors,
-		"functions_analysed": fns,
-		"packages_loaded":    o.Packages,
-		"build_configs":      o.Configs,
-		"samples":            samples,
-		"audited_entries":    audited,
-		"notes":              l.Notes,
-		"exhaustive":         o.Exhaustive,
+		"obligations":         total,
+		"discharged":          discharged,
+		"audited":             counts[Audited],
+		"known_findings":      counts[Known],
+		"undecided":           counts[Undecided],
+		"violated":            counts[Violated],
+		"checker_cmd":         o.Cmd,
+		"trusted_base":        l.Trusted,
+		"rule_instances":      l.RuleCounts(),
+		"rule_floors":         l.Floors,
+		"functions_analysed":  fns,
+		"packages_loaded":     o.Packages,
+		"build_configs":       o.Configs,
+		"samples":             samples,
+		"audited_entries":     audited,
+		"notes":               l.Notes,
+		"exhaustive":          o.Exhaustive,
 	}
 	for k, v := range o.Extra {
 		cov[k] = v
